@@ -2,6 +2,7 @@ import IPT.Thm.C05
 import IPT.Thm.C06
 import IPT.Thm.C12
 import IPT.Thm.C13
+import IPT.Lemmas.Angle
 /-
   C02 — Shurooq and Maghrib are sunrise and sunset of the Sun's upper limb (PARTIAL).
   Proved: the altitude constant is −0.8333° within 10⁻³; the first approximation of rise/set is the
@@ -62,6 +63,19 @@ theorem riseset_first_approx_altitude (lat dec adj : ℝ)
   have e : 360 * adj = toDegrees (Real.arccos r) := by rw [← h]; field_simp
   rw [e, toRadians_toDegrees]
   exact altitude_eq _ _ _ hk hr'.le hr.le
+
+/-- **the rise and set the code solves for are those of the requested date**: the approximate
+    fractions of the day at which it evaluates the Sun (and from which the one-step correction
+    starts) are the mean-transit fraction minus / plus the semi-diurnal arc, each reduced into
+    [0, 1) on its own - they differ from m₀ ∓ H₀/360 by a whole number of days and lie within the
+    civil day.  (Seed C02f took them from the already reduced transit fraction without their own
+    reduction: fractions outside [0,1), i.e. the previous day's sunrise.) -/
+theorem riseset_fractions_of_the_day (m0 adj : ℝ) :
+    (0 ≤ capAngle1 (m0 - adj) ∧ capAngle1 (m0 - adj) < 1 ∧ ∃ k : ℤ, capAngle1 (m0 - adj) = m0 - adj - k) ∧
+    (0 ≤ capAngle1 (m0 + adj) ∧ capAngle1 (m0 + adj) < 1 ∧ ∃ k : ℤ, capAngle1 (m0 + adj) = m0 + adj - k) := by
+  obtain ⟨a1, a2, a3⟩ := IPT.AngleLemmas.capAngle1_spec (m0 - adj)
+  obtain ⟨b1, b2, b3⟩ := IPT.AngleLemmas.capAngle1_spec (m0 + adj)
+  exact ⟨⟨a1, a2, ⌊m0 - adj⌋, a3⟩, ⟨b1, b2, ⌊m0 + adj⌋, b3⟩⟩
 
 variable {α : Type} [Add α] [Sub α] [Mul α] [Div α] [Neg α] [OfScientific α] [Sc α]
 
